@@ -276,6 +276,23 @@ def check_molecule(ctx, case):
                      'expected_GoRT': wg})
                 ok = False
                 break
+        # the estimate keeps ITS molecule: decomposing another one with the
+        # same library object afterwards must not move the elemental term
+        if len(smi) % 3 == 0:
+            other = 'OCC(C)O' if smi != 'OCC(C)O' else 'CCCCC'
+            observe(lib.GetDescriptors, other)
+            s2, _ = _get(ctx, case, 'get_SoR(S_elements=True) after another '
+                         'decomposition', est.get_SoR, T, S_elements=True)
+            observe(lib.GetDescriptors, arg if not case.get('as_mol')
+                    else smi)
+            if s2 != s1:
+                ctx.violation('the elemental term of an estimate follows the '
+                              'library\'s later decompositions', case,
+                              {'T': T, 'before': s1, 'after': s2,
+                               'other_molecule': other})
+                ok = False
+            else:
+                ctx.count('estimates_re_evaluated_after_another_decomposition')
         ctx.count('elemental_clause_decided')
         if not check_units(ctx, case, est, T, True, want):
             ok = False
